@@ -24,7 +24,7 @@ def execute(ctx, props):
     bad = ctx.tlc_check("CloudHandler", ctx.write_cfg("CloudHandler.old.cfg", R1 % (3, "FALSE")), label="pre-fix host counting (must fail)", must_pass=False)
     if bad.violated not in ("MonitorQuiet", "GaugesNonNegative"):
         raise vlib.MachineryError("vacuity: pre-fix gauge accounting not refuted")
-    plans = [("bfs4", 4, None, None)] + ([("sim9", 9, "num=%d" % 300, 10)] if ctx.tier == "quick" else [("bfs5", 5, None, None), ("sim12", 12, "num=60000", 13)])
+    plans = [("bfs4", 4, None, None)] + ([("sim9", 9, "num=%d" % 300, 10)] if ctx.tier == "quick" else [("bfs5", 5, None, None), ("sim12", 12, "num=3000", 13)])
     named, fails = {}, []
     for label, ml, sim, depth in plans:
         cfg = ctx.write_cfg("CloudSched.%s.cfg" % label, SCHED % ml)
